@@ -23,11 +23,13 @@ RULE = ('one workbook per case: generated criteria columns + target column and u
 ASSUMPTIONS = ['blank cells inside a criteria range are only asserted under text-equality, <>text and pattern criteria',
                'patterns are asserted over text/blank cells only; numeric-looking text cells are not placed under numeric criteria',
                'target ranges hold numbers and blanks only; date criteria are not generated',
-               'criterion texts are words that cannot be read as dates or numbers',
+               'criterion texts are words (some of which a lenient date parser reads as dates: sat, jan, may) and texts that denote numbers; date texts such as 2021-06-25 are not generated',
                'an empty AVERAGEIFS selection and misaligned ranges must give an error outcome (error string or exception)']
 
 COLS = 'ABCDEFGH'
-WORDS = ['apple', 'Apple', 'APPLE', 'pear', 'Pear', 'plum', 'kiwi', 'Kiwi', 'grape', 'a?c', 'a*c', 'abc', 'aXc', 'axyc', 'zz', 'x']
+WORDS = ['apple', 'Apple', 'APPLE', 'pear', 'Pear', 'plum', 'kiwi', 'Kiwi', 'grape', 'a?c', 'a*c', 'abc', 'aXc', 'axyc', 'zz', 'x',
+         # words that a lenient date parser reads as dates: they are texts, equal only to themselves (whatever their case)
+         'sat', 'Saturday', 'may', 'May', 'jan', 'January', 'mon', 'Monday', 'a1', 'pm', 'noon', 'today']
 
 
 # ------------------------------------------------------------------ own wildcard matcher
